@@ -57,6 +57,16 @@ def cases(tier, rng):
             out.append((fn, [s]))
         out.append(("equalsIgnoreCase", [s, s.upper()]))
         out.append(("equalsIgnoreCase", [s, rng.choice(ST)]))
+    # escape functions on strings over the characters each of them treats specially: every string of
+    # length <= 2 (each special alone, every ordered pair - a fast path may look for only some of them)
+    # plus random longer ones
+    esc_alpha = ["<", ">", "&", '"', "'", "$", "\\", "\n", "\t", "\r", "\x01", "\x7f", "a", "é", " ", "/", "😀"]
+    esc = [""] + esc_alpha + [a + b for a in esc_alpha for b in esc_alpha]
+    for _ in range(300 if tier == "quick" else 4000):
+        esc.append("".join(rng.choice(esc_alpha) for _ in range(rng.randrange(3, 9))))
+    for s in dict.fromkeys(esc):
+        for fn in ("escapeStringJson", "escapeStringPython", "escapeStringBash", "escapeStringDollars", "escapeStringXML"):
+            out.append((fn, [s]))
     # code points
     for n in [0, 9, 10, 32, 65, 127, 128, 255, 256, 0x7FF, 0x800, 0xD7FF, 0xD800, 0xDFFF, 0xE000, 0xFFFF, 0x10000, 0x1F600, 0x10FFFF,
               0x110000, -1, 65.5, 1e10]:
@@ -116,6 +126,16 @@ YAML_DOCS = [("1", 1.0), ("-1.5", -1.5), ("\"a\"", "a"), ("[1, 2, \"x\"]", [1.0,
              ("{\"a\": 1e3}", {"a": 1000.0}), ("[0.5, -0, 12345678901234567890]", [0.5, 0.0, 12345678901234567890.0])]
 
 
+def classify(fn, args, ref, got):
+    """discriminating features of a disagreement (for known-finding signatures)"""
+    import re
+    if fn in ("escapeStringJson", "escapeStringPython") and ref[0] == "ok" and got[0] == "ok" and isinstance(got[1], str):
+        raw = re.sub(r"\\u00([789])([0-9a-f])", lambda m: chr(int(m.group(1) + m.group(2), 16)), ref[1])
+        if raw == got[1] and raw != ref[1]:
+            return {"class": "DEL-or-C1-control-left-unescaped"}
+    return {}
+
+
 def shard(idx, n, tier, seed, binary):
     acc = runner.Acc()
     rng = runner.rng_for(seed, "c11")
@@ -125,7 +145,7 @@ def shard(idx, n, tier, seed, binary):
         for i, (fn, args) in enumerate(cs):
             if i % n != idx:
                 continue
-            S.check_call(acc, w, PROP, fn, args)
+            S.check_call(acc, w, PROP, fn, args, classify=classify)
         # inverse laws on the real outputs
         ST = strings(tier, rng)
         for i, s in enumerate(ST):
